@@ -799,7 +799,13 @@ pub fn apply_fault(t: &mut SupplyTrace, plan: &Plan, f: F, r: &mut Rng, prefer_s
             if n == 0 {
                 return false;
             }
-            t.root.doc.ops.push(DocOp::SigFlip { at: r.idx(n), bit: r.idx(4096) });
+            if r.chance(1, 3) {
+                // characters that are no hex digits, in whole pairs
+                let junk = r.pick(&["zz", "--xx", "  ", "ZZ", "g0", "\u{e9}"]).to_string();
+                t.root.doc.ops.push(DocOp::SigJunk { at: r.idx(n), pos: r.idx(200), junk });
+            } else {
+                t.root.doc.ops.push(DocOp::SigFlip { at: r.idx(n), bit: r.idx(4096) });
+            }
         }
         F::LEdit => {
             let v = layout_value(&t.root.layout, &t.keys);
@@ -989,7 +995,14 @@ pub fn apply_fault(t: &mut SupplyTrace, plan: &Plan, f: F, r: &mut Rng, prefer_s
                         doc.ops.push(DocOp::SigValueFrom { at: 0, from: n - 1 });
                         doc.ops.push(DocOp::SigStrip(n - 1));
                     }
-                    F::SigFlip => doc.ops.push(DocOp::SigFlip { at: 0, bit: r.idx(4096) }),
+                    F::SigFlip => {
+                        if r.chance(1, 4) {
+                            let junk = r.pick(&["zz", "--xx", "  ", "ZZ", "g0"]).to_string();
+                            doc.ops.push(DocOp::SigJunk { at: 0, pos: r.idx(200), junk });
+                        } else {
+                            doc.ops.push(DocOp::SigFlip { at: 0, bit: r.idx(4096) });
+                        }
+                    }
                     F::Relabel => {
                         if let Some(o) = orig {
                             doc.signers = vec![x];
@@ -1109,9 +1122,46 @@ pub fn apply_fault(t: &mut SupplyTrace, plan: &Plan, f: F, r: &mut Rng, prefer_s
                             d.insert("sha512".into(), sha512_hex(b"dissent"));
                         }
                     }
+                    3 if !arts.is_empty() && r.chance(1, 2) => {
+                        // the same path in another spelling (a map keyed by paths must not equate them)
+                        let k = arts.keys().nth(r.idx(arts.len())).unwrap().clone();
+                        let v = arts.remove(&k).unwrap();
+                        let nk = match r.below(4) {
+                            0 => k.replacen('/', "//", 1),
+                            1 => format!("./{k}"),
+                            2 => format!("{k}/"),
+                            _ => k.replacen('/', "/./", 1),
+                        };
+                        let nk = if nk == k { format!("{k}/.") } else { nk };
+                        arts.insert(nk, v);
+                    }
                     _ => {
                         if arts.is_empty() {
                             arts.insert("dissent/extra".into(), digest_of(999_998, false));
+                        } else if r.chance(1, 2) {
+                            // digests that differ in a way a sloppy comparison misses: every byte
+                            // complemented, the same bit flipped in two bytes, a prefix, an extension
+                            let k = arts.keys().nth(r.idx(arts.len())).unwrap().clone();
+                            let d = arts.get_mut(&k).unwrap();
+                            let h = d.get("sha256").cloned().unwrap_or_default();
+                            let mut bytes = data_encoding::HEXLOWER.decode(h.as_bytes()).unwrap_or_default();
+                            match r.below(4) {
+                                0 => {
+                                    for b in bytes.iter_mut() {
+                                        *b = !*b;
+                                    }
+                                }
+                                1 if bytes.len() >= 2 => {
+                                    let (i, j) = (r.idx(bytes.len()), r.idx(bytes.len()));
+                                    let j = if i == j { (j + 1) % bytes.len() } else { j };
+                                    let bit = 1u8 << r.below(8);
+                                    bytes[i] ^= bit;
+                                    bytes[j] ^= bit;
+                                }
+                                2 => bytes.truncate(bytes.len() / 2),
+                                _ => bytes.push(0),
+                            }
+                            d.insert("sha256".into(), data_encoding::HEXLOWER.encode(&bytes));
                         } else {
                             let k = arts.keys().nth(r.idx(arts.len())).unwrap().clone();
                             let d = arts.get_mut(&k).unwrap();
